@@ -1131,7 +1131,7 @@ class Model:
                 for alias in aliases:
                     if (
                         len(old_alias_relation.aliases(alias)) > 1
-                        and alias not in old_alias_relation.canonical_variables
+                        and alias.lstrip("-") not in old_alias_relation.canonical_variables
                     ):
                         # We already handled this alias in a previous pass of `detect_aliases`
                         continue
